@@ -1,14 +1,23 @@
 (* Frame.v — the dependency hypothesis of the refinement theorem is PROVED for "flat" rule sets:
-   every variable is a field of a top-level fact (F.X), expressions are built from such variables,
+   every variable is a top-level name or a chain of fields below one (N, F.X, F.In.X, … - no selectors),
+   expressions are built from such variables,
    constants, negation, parentheses and the binary operators; actions are assignments to such
    variables and control built-ins with flat arguments.  For these rule sets C01, C02, C04, C07,
    C08, C14 hold without any semantic hypothesis (FrameTheorems below). *)
 From Coq Require Import Relations.
 From Grule Require Import Base Values Syntax CmpGen ArithGen OpsGen Snapshot Printer EngineAbs Facts Eval Fresh Engine
-     FactsProofs ActionTheorems SnapContain MemoProofs Refinement.
+     FactsProofs ActionTheorems SnapContain MemoProofs MemoKeep Refinement.
 Open Scope Z_scope.
 
-Definition flat_var (x : var) : bool := match x with VMember (VName _) _ => true | _ => false end.
+Fixpoint flat_var (x : var) : bool :=
+  match x with VName _ => true | VMember x' _ => flat_var x' | VSel _ _ => false end.
+(* the location a flat variable denotes *)
+Fixpoint spath (x : var) : path :=
+  match x with
+  | VName r => {| p_root := r; p_steps := [] |}
+  | VMember x' f => path_snoc (spath x') (SField f)
+  | VSel x' _ => spath x'
+  end.
 Fixpoint flat_atom (a : atom) : bool :=
   match a with
   | AConst _ => true
@@ -44,58 +53,194 @@ Definition same_view (fx fx' : facts) (r : res rval) : Prop :=
 Definition unchanged_var (fx fx' : facts) (y : var) : Prop :=
   fresh_var fx' y = fresh_var fx y /\ same_view fx fx' (fresh_var fx y).
 
-Lemma fresh_var_flat : forall fx r g,
-  fresh_var fx (VMember (VName r) g) =
-  match alookup r fx with
-  | Some v => child_field_f fx (rval_of {| p_root := r; p_steps := [] |} v) g
-  | None => Err
-  end.
-Proof. intros. rewrite fresh_var_unfold, fresh_var_unfold. destruct (alookup r fx); reflexivity. Qed.
+(* the top constructor of a stored value: all that scalar_of and rval_of look at *)
+Definition shape (v : fval) : nat :=
+  match v with FV _ => 0 | FStruct _ => 1 | FPtr None => 2 | FPtr (Some _) => 3 | FSlice _ => 4 | FMap _ => 5 end%nat.
 
-Lemma path_get_root : forall fx fx' r ss, alookup r fx' = alookup r fx ->
-  path_get fx' {| p_root := r; p_steps := ss |} = path_get fx {| p_root := r; p_steps := ss |}.
-Proof. intros. unfold path_get. simpl. rewrite H. reflexivity. Qed.
+Lemma shape_rval : forall p v v', shape v = shape v' -> v <> FV (VNil) -> shape v <> 0%nat -> rval_of p v' = rval_of p v.
+Proof. intros p v v' H _ Hn. destruct v as [x|fs|[t|]|xs|kvs]; destruct v' as [x'|fs'|[t'|]|xs'|kvs']; simpl in *; try discriminate; try reflexivity. congruence. Qed.
 
-(* a write that leaves the root r' alone leaves every flat variable under r' unchanged *)
-Lemma var_frame_other_root : forall fx fx' r' g, alookup r' fx' = alookup r' fx ->
-  unchanged_var fx fx' (VMember (VName r') g).
+Lemma path_get_snoc : forall fx p s,
+  path_get fx (path_snoc p s) = match path_get fx p with Ok v => step_get v s | Err => Err | Panic => Panic end.
 Proof.
-  intros fx fx' r' g H. unfold unchanged_var. rewrite !fresh_var_flat, H.
-  pose proof (fun ss => path_get_root fx fx' r' ss H) as Pall. clear H.
-  destruct (alookup r' fx) as [v|]; [|split; [reflexivity|intros p E; discriminate]].
-  destruct v as [sv|fs|o|xs|kvs]; simpl rval_of;
-    try (split; [reflexivity|intros p E; discriminate]).
-  all: unfold child_field_f; rewrite (Pall []);
-    destruct (path_get fx {| p_root := r'; p_steps := [] |}) as [w| |]; try (split; [reflexivity|intros p E; discriminate]);
-    destruct (step_get w (SField g)) as [c| |]; try (split; [reflexivity|intros p E; discriminate]);
-    (split; [reflexivity|]); intros p E; inversion E as [E1];
-    destruct c; simpl in E1; try discriminate; inversion E1; subst p;
-    unfold scalar_of, path_snoc; simpl; rewrite Pall; reflexivity.
+  intros fx p s. unfold path_get, path_snoc. simpl. destruct (alookup (p_root p) fx) as [v|]; [|reflexivity].
+  generalize v. induction (p_steps p) as [|t tt IH]; intros w; simpl.
+  - destruct (step_get w s); reflexivity.
+  - destruct (step_get w t); auto.
 Qed.
 
-(* writing field f of the struct at root r leaves every other field variable of r unchanged *)
-Lemma var_frame_same_root : forall fx fx' r f g v v' sv,
-  alookup r fx = Some v -> steps_set v [SField f] sv = Some v' -> fx' = aupdate r v' fx -> f <> g ->
-  unchanged_var fx fx' (VMember (VName r) g).
+Lemma child_field_path : forall fx p g,
+  child_field_f fx (RRef p) g =
+  match path_get fx (path_snoc p (SField g)) with Ok c => Ok (rval_of (path_snoc p (SField g)) c) | Err => Err | Panic => Panic end.
 Proof.
-  intros fx fx' r f g v v' sv Hv Hs -> Hne. unfold unchanged_var. rewrite !fresh_var_flat.
-  rewrite (alookup_aupdate_eq _ r v' fx), Hv.
-  assert (Hshape: (exists fs c, v = FStruct fs /\ field_get fs f = Some c /\ v' = FStruct (field_set fs f sv)) \/
-                  (exists fs c, v = FPtr (Some (FStruct fs)) /\ field_get fs f = Some c /\ v' = FPtr (Some (FStruct (field_set fs f sv))))).
-  { simpl in Hs. destruct v as [x|fs|[t|]|xs|kvs]; try discriminate.
-    - destruct (field_get fs f) as [c|] eqn:F; try discriminate. inversion Hs. left. eauto.
-    - destruct t as [x|fs| | |]; try discriminate.
-      destruct (field_get fs f) as [c|] eqn:F; try discriminate. inversion Hs. right. eauto. }
-  assert (Hpg: forall ss w, path_get (aupdate r w fx) {| p_root := r; p_steps := ss |} = steps_get w ss).
-  { intros. unfold path_get. simpl. rewrite alookup_aupdate_eq. reflexivity. }
-  assert (Hpg0: forall ss, path_get fx {| p_root := r; p_steps := ss |} = steps_get v ss).
-  { intros. unfold path_get. simpl. rewrite Hv. reflexivity. }
-  destruct Hshape as [(fs & c & -> & Hc & ->)|(fs & c & -> & Hc & ->)]; simpl rval_of; unfold child_field_f;
-    rewrite Hpg, Hpg0; simpl; rewrite (field_get_set_other fs f g sv Hne);
-    (destruct (field_get fs g) as [d|]; [|split; [reflexivity|intros p E; discriminate]]);
-    (split; [reflexivity|]); intros p E; inversion E as [E1];
-    destruct d; simpl in E1; try discriminate; inversion E1; subst p;
-    unfold scalar_of, path_snoc; simpl; rewrite Hpg, Hpg0; simpl; rewrite (field_get_set_other fs f g sv Hne); reflexivity.
+  intros. unfold child_field_f. rewrite path_get_snoc. destruct (path_get fx p) as [v| |]; try reflexivity.
+Qed.
+
+(* along the written path the aggregates keep their shape *)
+Lemma steps_set_prefix_shape : forall tt s ss v x v',
+  steps_set v (tt ++ s :: ss)%list x = Some v' ->
+  exists c c', steps_get v tt = Ok c /\ steps_get v' tt = Ok c' /\ shape c' = shape c /\ shape c <> 0%nat.
+Proof.
+  induction tt as [|t tt IH]; intros s ss v x v' H.
+  - simpl in H. exists v, v'. split; [reflexivity|]. split; [reflexivity|].
+    destruct s as [n|i|k]; destruct v as [sv|fs|[tg|]|xs|kvs]; try discriminate.
+    + destruct (field_get fs n); try discriminate. destruct (steps_set f ss x); inversion H. simpl. auto.
+    + destruct tg as [sv|fs| | |]; try discriminate.
+      destruct (field_get fs n); try discriminate. destruct (steps_set f ss x); inversion H. simpl. auto.
+    + destruct (nth_z xs i); try discriminate. destruct (steps_set f ss x); inversion H. simpl. auto.
+    + destruct (field_get kvs k).
+      * destruct (steps_set f ss x); inversion H. simpl. auto.
+      * destruct ss; inversion H. simpl. auto.
+  - simpl in H.
+    destruct t as [n|i|k]; destruct v as [sv|fs|[tg|]|xs|kvs]; try discriminate.
+    + destruct (field_get fs n) as [c0|] eqn:E; try discriminate.
+      destruct (steps_set c0 (tt ++ s :: ss)%list x) as [c0'|] eqn:S; try discriminate. inversion H; subst.
+      destruct (IH _ _ _ _ _ S) as (c & c' & A & B & C & D). exists c, c'.
+      simpl. rewrite E. rewrite field_get_set_same by congruence. auto.
+    + destruct tg as [sv|fs| | |]; try discriminate.
+      destruct (field_get fs n) as [c0|] eqn:E; try discriminate.
+      destruct (steps_set c0 (tt ++ s :: ss)%list x) as [c0'|] eqn:S; try discriminate. inversion H; subst.
+      destruct (IH _ _ _ _ _ S) as (c & c' & A & B & C & D). exists c, c'.
+      simpl. rewrite E. rewrite field_get_set_same by congruence. auto.
+    + destruct (nth_z xs i) as [c0|] eqn:E; try discriminate.
+      destruct (steps_set c0 (tt ++ s :: ss)%list x) as [c0'|] eqn:S; try discriminate. inversion H; subst.
+      destruct (IH _ _ _ _ _ S) as (c & c' & A & B & C & D). exists c, c'.
+      simpl. rewrite E. rewrite nth_set_same by congruence. auto.
+    + destruct (field_get kvs k) as [c0|] eqn:E.
+      * destruct (steps_set c0 (tt ++ s :: ss)%list x) as [c0'|] eqn:S; try discriminate. inversion H; subst.
+        destruct (IH _ _ _ _ _ S) as (c & c' & A & B & C & D). exists c, c'.
+        simpl. rewrite E. rewrite field_get_set_same by congruence. auto.
+      * destruct (tt ++ s :: ss)%list eqn:L; [destruct tt; discriminate|discriminate].
+Qed.
+
+(* two step lists: they diverge, or one is a prefix of the other *)
+Lemma steps_trichotomy : forall a b : list step,
+  diverge a b = true \/ (exists s ss, a = (b ++ s :: ss)%list) \/ (exists ss, b = (a ++ ss)%list).
+Proof.
+  induction a as [|x a IH]; intros b.
+  - right. right. exists b. reflexivity.
+  - destruct b as [|y b].
+    + right. left. exists x, a. reflexivity.
+    + simpl. destruct (step_eqb x y) eqn:E.
+      * apply step_eqb_eq in E. subst y. destruct (IH b) as [D|[(s & ss & ->)|(ss & ->)]].
+        -- left. exact D.
+        -- right. left. exists s, ss. reflexivity.
+        -- right. right. exists ss. reflexivity.
+      * left. reflexivity.
+Qed.
+
+(* the effect of a write on what a location shows: nothing if the locations diverge or the roots differ; the same shape
+   if the location is an aggregate on the way to the written one *)
+Definition view_kept (fx fx' : facts) (p : path) : Prop :=
+  path_get fx' p = path_get fx p \/
+  (exists c c', path_get fx p = Ok c /\ path_get fx' p = Ok c' /\ shape c' = shape c /\ shape c <> 0%nat).
+
+Lemma view_kept_rval : forall fx fx' p, view_kept fx fx' p ->
+  match path_get fx' p with Ok c => Ok (rval_of p c) | Err => Err | Panic => Panic end =
+  match path_get fx p with Ok c => Ok (rval_of p c) | Err => Err | Panic => Panic end.
+Proof.
+  intros fx fx' p [E|(c & c' & A & B & C & D)]; [rewrite E; reflexivity|]. rewrite A, B. f_equal.
+  destruct c as [x|fs|[t|]|xs|kvs]; destruct c' as [x'|fs'|[t'|]|xs'|kvs']; simpl in *; try discriminate; try reflexivity. congruence.
+Qed.
+Lemma view_kept_scalar : forall fx fx' p, view_kept fx fx' p -> scalar_of fx' (RRef p) = scalar_of fx (RRef p).
+Proof.
+  intros fx fx' p [E|(c & c' & A & B & C & D)]; unfold scalar_of; [rewrite E; reflexivity|]. rewrite A, B.
+  destruct c as [x|fs|[t|]|xs|kvs]; destruct c' as [x'|fs'|[t'|]|xs'|kvs']; simpl in *; try discriminate; try reflexivity. congruence.
+Qed.
+
+(* a write to location q, seen from location p that q is not a prefix of *)
+Lemma write_view : forall fx fx' q sv p,
+  path_set fx q sv = Some fx' ->
+  ~ (p_root p = p_root q /\ exists ss, p_steps p = (p_steps q ++ ss)%list) ->
+  view_kept fx fx' p.
+Proof.
+  intros fx fx' q sv p Hs Hn.
+  destruct (String.eqb (p_root q) (p_root p)) eqn:Er.
+  2:{ left. eapply path_get_set_other; eauto. unfold paths_diverge. rewrite Er. reflexivity. }
+  apply String.eqb_eq in Er.
+  destruct (steps_trichotomy (p_steps q) (p_steps p)) as [D|[(s & ss & E)|(ss & E)]].
+  - left. eapply path_get_set_other; eauto. unfold paths_diverge. rewrite D. apply orb_true_r.
+  - right. unfold path_set in Hs. unfold path_get. rewrite <- Er.
+    destruct (alookup (p_root q) fx) as [v|] eqn:Ev; try discriminate.
+    destruct (steps_set v (p_steps q) sv) as [v'|] eqn:S; try discriminate. inversion Hs; subst fx'.
+    rewrite alookup_aupdate_eq. rewrite E in S. apply steps_set_prefix_shape in S. exact S.
+  - exfalso. apply Hn. split; [congruence|]. exists ss. exact E.
+Qed.
+
+(* replacing a whole top-level entry, seen from another root *)
+Lemma replace_view : forall fx r w p, p_root p <> r -> view_kept fx (aupdate r w fx) p.
+Proof. intros fx r w p H. left. unfold path_get. rewrite alookup_aupdate_other; auto. Qed.
+
+(* ---- flat variables: their value is what their location shows ---- *)
+Lemma fresh_var_spath : forall fx y, flat_var y = true ->
+  (forall p, fresh_var fx y = Ok (RRef p) -> p = spath y).
+Proof.
+  induction y as [r|y' IH g|y' IH sel]; intros Hf p H; simpl in Hf; try discriminate.
+  - rewrite fresh_var_unfold in H. destruct (alookup r fx) as [v|]; try discriminate.
+    destruct v; simpl in H; inversion H; reflexivity.
+  - rewrite fresh_var_unfold in H. destruct (fresh_var fx y') as [ry| |] eqn:Ey; try discriminate.
+    destruct ry as [x|q]; [simpl in H; discriminate|].
+    rewrite (IH Hf q eq_refl) in H. rewrite child_field_path in H.
+    destruct (path_get fx (path_snoc (spath y') (SField g))) as [c| |]; try discriminate.
+    destruct c; simpl in H; inversion H; reflexivity.
+Qed.
+
+Lemma spath_root_steps : forall y, flat_var y = true -> forall x, flat_var x = true ->
+  p_root (spath y) = p_root (spath x) -> (exists ss, p_steps (spath y) = (p_steps (spath x) ++ ss)%list) -> In x (vars_var y).
+Proof.
+  induction y as [r|y' IH g|y' IH sel]; intros Hy x Hx Hr (ss & Hs); simpl in Hy; try discriminate.
+  - simpl in *. destruct x as [r'|x' f|x' s]; simpl in Hx; try discriminate.
+    + simpl in Hr. subst. left. reflexivity.
+    + simpl in Hs. destruct (p_steps (spath x')); discriminate.
+  - simpl vars_var. destruct (var_eqb (VMember y' g) x) eqn:E.
+    + left. apply (proj1 (proj2 (proj2 syntax_eqb_eq))). exact E.
+    + right. simpl in Hr, Hs.
+      (* x's steps are a prefix of y' steps ++ [g]; x <> y so they are a prefix of y' steps *)
+      assert (Hpre: exists ss', p_steps (spath y') = (p_steps (spath x) ++ ss')%list).
+      { destruct ss as [|s0 ss0] using rev_ind.
+        - exfalso. rewrite app_nil_r in Hs.
+          (* then x = y' . g *)
+          destruct x as [r'|x' f|x' s]; simpl in Hx; try discriminate.
+          + simpl in Hs. destruct (p_steps (spath y')); discriminate.
+          + simpl in Hs, Hr. apply app_inj_tail in Hs. destruct Hs as [Hs1 Hs2]. inversion Hs2; subst f.
+            assert (Hin: In x' (vars_var y')) by (apply IH; auto; exists []; rewrite app_nil_r; auto).
+            (* same root, same steps, both flat: equal variables *)
+            assert (Heq: forall a b, flat_var a = true -> flat_var b = true -> p_root (spath a) = p_root (spath b) ->
+                                     p_steps (spath a) = p_steps (spath b) -> a = b).
+            { induction a as [ra|a' IHa fa|a' IHa sa]; intros b Ha Hb R S; simpl in Ha; try discriminate;
+                destruct b as [rb|b' fb|b' sb]; simpl in Hb; try discriminate; simpl in R, S.
+              - congruence.
+              - destruct (p_steps (spath b')); discriminate.
+              - destruct (p_steps (spath a')); discriminate.
+              - apply app_inj_tail in S. destruct S as [S1 S2]. inversion S2; subst. f_equal. apply IHa; auto. }
+            rewrite (Heq y' x' Hy Hx Hr Hs1) in E. simpl in E.
+            rewrite (proj1 (proj2 (proj2 syntax_eqb_refl)) x'), String.eqb_refl in E. discriminate.
+        - rewrite app_assoc in Hs. apply app_inj_tail in Hs. destruct Hs as [Hs1 _]. exists ss0. exact Hs1. }
+      apply IH; auto.
+Qed.
+
+(* the frame for one flat variable: a write at location q, and q is not at or above y *)
+Lemma flat_var_frame : forall fx fx' y,
+  flat_var y = true ->
+  (forall z, In z (vars_var y) -> view_kept fx fx' (spath z)) ->
+  unchanged_var fx fx' y.
+Proof.
+  intros fx fx' y. induction y as [r|y' IH g|y' IH sel]; intros Hf Hv; simpl in Hf; try discriminate.
+  - pose proof (Hv (VName r) (or_introl eq_refl)) as K. simpl in K.
+    assert (E: fresh_var fx' (VName r) = fresh_var fx (VName r)).
+    { rewrite !fresh_var_unfold. pose proof (view_kept_rval _ _ _ K) as R. unfold path_get in R. simpl in R.
+      destruct (alookup r fx') as [v'|]; destruct (alookup r fx) as [v|]; try (inversion R; fail); auto. }
+    split; [exact E|]. intros p Hp. rewrite (fresh_var_spath fx (VName r) eq_refl p Hp). apply view_kept_scalar. exact K.
+  - assert (Hv': forall z, In z (vars_var y') -> view_kept fx fx' (spath z)) by (intros; apply Hv; right; assumption).
+    destruct (IH Hf Hv') as [A B].
+    pose proof (Hv (VMember y' g) (or_introl eq_refl)) as K. simpl in K.
+    assert (E: fresh_var fx' (VMember y' g) = fresh_var fx (VMember y' g)).
+    { rewrite (fresh_var_unfold meth fx'), (fresh_var_unfold meth fx). rewrite A.
+      destruct (fresh_var fx y') as [ry| |] eqn:Ey; try reflexivity.
+      destruct ry as [x|q]; [reflexivity|]. rewrite (fresh_var_spath fx y' Hf q Ey).
+      rewrite !child_field_path. apply view_kept_rval. exact K. }
+    split; [exact E|]. intros p Hp.
+    rewrite (fresh_var_spath fx (VMember y' g) Hf p Hp). apply view_kept_scalar. exact K.
 Qed.
 
 (* ---- expressions: unchanged variables give unchanged values ---- *)
@@ -152,8 +297,8 @@ Proof.
     unfold bin_combine in E. destruct (fresh_expr fx l); destruct (fresh_expr fx r); try discriminate.
     destruct (op_apply o _ _); discriminate.
   - (* AConst *) intros c Hf Hv. rewrite !fresh_atom_unfold. split; [reflexivity|]. intros p E. discriminate.
-  - (* AVar *) intros x IH Hf Hv. rewrite !fresh_atom_unfold. simpl in Hf. apply Hv; auto. simpl.
-    destruct x as [n|x' n|x' s]; try discriminate. simpl. auto.
+  - (* AVar *) intros x IH Hf Hv. rewrite !fresh_atom_unfold. simpl in Hf. apply Hv; auto.
+    cbn [vars_atom]. destruct x as [n|x' n|x' s]; cbn [vars_var]; left; reflexivity.
   - (* AFunc *) intros f l IH Hf. discriminate.
   - (* AMethod *) intros a IHa f l IHl Hf. discriminate.
   - (* AMember *) intros a IH n Hf. discriminate.
@@ -168,12 +313,11 @@ End ExprFrame.
 End Frame.
 
 (* ---- every node of a flat rule set is flat ---- *)
-Definition is_name (v : var) : bool := match v with VName _ => true | _ => false end.
 Definition flat_node (n : node) : bool :=
   match n with
   | NdE e => flat_expr e
   | NdA a => flat_atom a
-  | NdV v => flat_var v || is_name v
+  | NdV v => flat_var v
   | NdL l => flat_elist l
   end.
 
@@ -181,8 +325,6 @@ Lemma child_flat : forall c p, child c p -> flat_node p = true -> flat_node c = 
 Proof.
   intros c p H. destruct H; simpl; intros Hf; try discriminate; auto;
     try (apply andb_prop in Hf; destruct Hf; assumption).
-  - (* AVar *) rewrite Hf. reflexivity.
-  - (* VMember *) destruct x; simpl in *; try discriminate. reflexivity.
 Qed.
 
 Lemma flat_root : forall rules r n, flat_rules rules = true -> In r rules -> In n (rule_roots r) -> flat_node n = true.
@@ -192,7 +334,7 @@ Proof.
   destruct Hn as [<-|Hn]; [exact Hw|].
   apply in_flat_map in Hn. destruct Hn as (st & Hst & Hn). rewrite forallb_forall in Ht. specialize (Ht st Hst).
   destruct st as [x o e|a]; simpl in *.
-  - apply andb_prop in Ht. destruct Ht as [A B]. destruct Hn as [<-|[<-|[]]]; simpl; [rewrite A; reflexivity|exact B].
+  - apply andb_prop in Ht. destruct Ht as [A B]. destruct Hn as [<-|[<-|[]]]; simpl; assumption.
   - destruct a; try discriminate. destruct Hn as [<-|[]]. exact Ht.
 Qed.
 
@@ -204,28 +346,36 @@ Proof.
   eapply child_flat; eauto.
 Qed.
 
-(* in a flat node the root variable of every field variable is listed as well *)
-Lemma flat_parent :
-  (forall e, flat_expr e = true -> forall r g, In (VMember (VName r) g) (vars_expr e) -> In (VName r) (vars_expr e)) /\
-  (forall a, flat_atom a = true -> forall r g, In (VMember (VName r) g) (vars_atom a) -> In (VName r) (vars_atom a)).
+(* the variable lists of flat nodes contain, with a variable, the variables above it *)
+Lemma vars_var_closed : forall y z, In z (vars_var y) -> flat_var y = true -> incl (vars_var z) (vars_var y).
 Proof.
-  enough (H: (forall e, flat_expr e = true -> forall r g, In (VMember (VName r) g) (vars_expr e) -> In (VName r) (vars_expr e)) /\
-             (forall a, flat_atom a = true -> forall r g, In (VMember (VName r) g) (vars_atom a) -> In (VName r) (vars_atom a)) /\
+  induction y as [r|y' IH g|y' IH sel]; intros z Hz Hf; simpl in Hf; try discriminate.
+  - simpl in Hz. destruct Hz as [<-|[]]. apply incl_refl.
+  - cbn [vars_var] in Hz. destruct Hz as [<-|Hz]; [apply incl_refl|].
+    cbn [vars_var]. apply incl_tl. apply IH; auto.
+Qed.
+
+Lemma flat_vars_closed :
+  (forall e, flat_expr e = true -> forall y, In y (vars_expr e) -> incl (vars_var y) (vars_expr e)) /\
+  (forall a, flat_atom a = true -> forall y, In y (vars_atom a) -> incl (vars_var y) (vars_atom a)).
+Proof.
+  enough (H: (forall e, flat_expr e = true -> forall y, In y (vars_expr e) -> incl (vars_var y) (vars_expr e)) /\
+             (forall a, flat_atom a = true -> forall y, In y (vars_atom a) -> incl (vars_var y) (vars_atom a)) /\
              (forall x : var, True) /\ (forall l : elist, True)) by (destruct H as (A & B & _); auto).
   apply syntax_mutind; try (intros; exact I).
-  - intros a IH Hf r g H. simpl in *. eauto.
-  - intros n e IH Hf r g H. simpl in *. eauto.
-  - intros o l IHl r0 IHr Hf r g H. simpl in *. apply andb_prop in Hf. destruct Hf as [A B].
-    apply in_app_or in H. apply in_or_app. destruct H; [left|right]; eauto.
-  - intros c Hf r g H. inversion H.
-  - intros x _ Hf r g H. simpl in *. destruct x as [n|x' n|x' s]; try discriminate.
-    destruct x' as [m| |]; try discriminate. simpl in *.
-    destruct H as [H|[H|[]]]; [inversion H; subst; auto|discriminate].
+  - intros a IH Hf y H. simpl in *. eauto.
+  - intros n e IH Hf y H. simpl in *. eauto.
+  - intros o l IHl r0 IHr Hf y H. simpl in *. apply andb_prop in Hf. destruct Hf as [A B].
+    apply in_app_or in H. destruct H as [H|H].
+    + apply incl_appl. eauto.
+    + apply incl_appr. eauto.
+  - intros c Hf y H. inversion H.
+  - intros x _ Hf y H. simpl in *. apply vars_var_closed; auto.
   - intros f l _ Hf. discriminate.
   - intros a _ f l _ Hf. discriminate.
   - intros a _ n Hf. discriminate.
   - intros a _ e _ Hf. discriminate.
-  - intros a IH Hf r g H. simpl in *. eauto.
+  - intros a IH Hf y H. simpl in *. eauto.
 Qed.
 
 Section Dependency.
@@ -234,69 +384,65 @@ Variable meth : list (string * fval) -> string -> list val -> res (option val * 
 Variable mutating : string -> bool.
 Hypothesis Hflat : flat_rules rules = true.
 
-(* what a successful write to a flat variable / a top-level name does to the facts *)
-Lemma write_flat_field : forall fx r f nv fx' t,
-  fresh_target meth fx (VMember (VName r) f) = Ok t -> write_target fx t nv = Ok fx' ->
-  exists v v' sv, alookup r fx = Some v /\ steps_set v [SField f] sv = Some v' /\ fx' = aupdate r v' fx.
+(* a successful write to a flat variable is a path_set at its location (or the replacement of a top-level entry) *)
+Lemma write_flat : forall fx x nv fx' t,
+  flat_var x = true -> fresh_target meth fx x = Ok t -> write_target fx t nv = Ok fx' ->
+  (exists r w, x = VName r /\ fx' = aupdate r w fx) \/
+  (exists sv, path_set fx (spath x) sv = Some fx').
 Proof.
-  intros fx r f nv fx' t Ht Hw. unfold fresh_target in Ht. rewrite fresh_var_unfold in Ht.
-  destruct (alookup r fx) as [v|] eqn:Ev; try discriminate.
-  destruct (rval_of {| p_root := r; p_steps := [] |} v) as [x|p] eqn:Er; try discriminate.
-  inversion Ht; subst t. assert (p = {| p_root := r; p_steps := [] |}) by (destruct v; simpl in Er; inversion Er; reflexivity). subst p.
-  simpl in Hw. unfold path_get in Hw. simpl in Hw. rewrite Ev in Hw. simpl in Hw.
-  assert (Hw': match step_get v (SField f) with
-               | Ok dst => match store_scalar dst nv with
-                           | Ok nv0 => match path_set fx (path_snoc {| p_root := r; p_steps := [] |} (SField f)) nv0 with Some fx0 => Ok fx0 | None => Err end
-                           | _ => Err end
-               | _ => Err end = Ok fx').
-  { destruct v as [| |[o|]| |]; try exact Hw. discriminate. }
-  destruct (step_get v (SField f)) as [dst| |]; try discriminate.
-  destruct (store_scalar dst nv) as [sv| |]; try discriminate.
-  unfold path_set, path_snoc in Hw'. cbn [p_root p_steps app] in Hw'. rewrite Ev in Hw'.
-  destruct (steps_set v [SField f] sv) as [v'|] eqn:Es; try discriminate. inversion Hw'; subst.
-  exists v, v', sv. split; [reflexivity|]. split; [exact Es|reflexivity].
+  intros fx x nv fx' t Hx Ht Hw. destruct x as [r|x' f|x' s]; simpl in Hx; try discriminate.
+  - left. simpl in Ht. inversion Ht; subst t. simpl in Hw. inversion Hw; subst. eauto.
+  - right. unfold fresh_target in Ht.
+    destruct (Fresh.fresh_var meth fx x') as [rx| |] eqn:Ex; try discriminate.
+    destruct rx as [v|p]; try discriminate. inversion Ht; subst t.
+    rewrite (fresh_var_spath meth fx x' Hx p Ex) in Hw. simpl in Hw.
+    destruct (path_get fx (spath x')) as [obj| |]; try discriminate.
+    assert (Hw': match step_get obj (SField f) with
+                 | Ok dst => match store_scalar dst nv with
+                             | Ok nv0 => match path_set fx (path_snoc (spath x') (SField f)) nv0 with Some fx0 => Ok fx0 | None => Err end
+                             | _ => Err end
+                 | _ => Err end = Ok fx').
+    { destruct obj as [| |[o|]| |]; try exact Hw. discriminate. }
+    destruct (step_get obj (SField f)) as [dst| |]; try discriminate.
+    destruct (store_scalar dst nv) as [sv| |]; try discriminate.
+    destruct (path_set fx (path_snoc (spath x') (SField f)) sv) as [fx0|] eqn:Es; try discriminate.
+    inversion Hw'; subst. exists sv. exact Es.
 Qed.
 
 Lemma flat_write_frame : forall x fx t nv fx',
-  flat_node (NdV x) = true -> fresh_target meth fx x = Ok t -> write_target fx t nv = Ok fx' ->
+  flat_var x = true -> fresh_target meth fx x = Ok t -> write_target fx t nv = Ok fx' ->
   forall y, flat_var y = true -> ~ In x (vars_var y) -> unchanged_var meth fx fx' y.
 Proof.
   intros x fx t nv fx' Hx Ht Hw y Hy Hnot.
-  destruct y as [n|y' g|y' s]; try discriminate. destruct y' as [r'| |]; try discriminate. simpl in Hnot.
-  destruct x as [r|x' f|x' s]; simpl in Hx; try discriminate.
-  - (* a top-level name is replaced *)
-    simpl in Ht. inversion Ht; subst t. simpl in Hw. inversion Hw; subst fx'.
-    apply var_frame_other_root. apply alookup_aupdate_other. intro E. subst. apply Hnot. right. left. reflexivity.
-  - destruct x' as [r| |]; try discriminate.
-    destruct (write_flat_field fx r f nv fx' t Ht Hw) as (v & v' & sv & Ev & Es & ->).
-    destruct (String.eqb r r') eqn:Er.
-    + apply String.eqb_eq in Er. subst r'. eapply var_frame_same_root; eauto.
-      intro E. subst. apply Hnot. left. reflexivity.
-    + apply var_frame_other_root. apply alookup_aupdate_other. intro E. subst. rewrite String.eqb_refl in Er. discriminate.
+  apply flat_var_frame; auto. intros z Hz.
+  assert (Hzf: flat_var z = true).
+  { clear - Hz Hy. induction y as [r|y' IH g|y' IH sel]; simpl in Hy; try discriminate.
+    - destruct Hz as [<-|[]]. reflexivity.
+    - cbn [vars_var] in Hz. destruct Hz as [<-|Hz]; auto. }
+  assert (Hnz: ~ In x (vars_var z)) by (intro Hin; apply Hnot; eapply vars_var_closed; eauto).
+  destruct (write_flat fx x nv fx' t Hx Ht Hw) as [(r & w & -> & ->)|(sv & Hs)].
+  - apply replace_view. intro E. apply Hnz.
+    apply (spath_root_steps z Hzf (VName r) eq_refl); [exact E|]. exists (p_steps (spath z)). reflexivity.
+  - eapply write_view; eauto. intros [Hr Hss]. apply Hnz. apply (spath_root_steps z Hzf x Hx Hr Hss).
 Qed.
 
 Theorem flat_dependency_hypothesis : dependency_hypothesis rules meth mutating.
 Proof.
-  intros x fx t nv fx' HNV Hp Ht Hw. pose proof (in_kb_flat rules _ Hflat HNV) as Hx.
+  intros x fx t nv fx' HNV Hp Ht Hw. pose proof (in_kb_flat rules _ Hflat HNV) as Hx. simpl in Hx.
   assert (Hframe: forall y, flat_var y = true -> ~ In x (vars_var y) -> unchanged_var meth fx fx' y)
     by (eapply flat_write_frame; eauto).
-  assert (Hsub: forall (vs : list var), ~ In x vs ->
-            (forall r g, In (VMember (VName r) g) vs -> In (VName r) vs) ->
-            forall y, In y vs -> flat_var y = true -> ~ In x (vars_var y)).
-  { intros vs Hn Hpar y Hy Hfy. destruct y as [n|y' g|y' s]; try discriminate. destruct y' as [r'| |]; try discriminate.
-    simpl. intros [E|[E|[]]]; subst; apply Hn; auto. eapply Hpar; eauto. }
-  destruct flat_parent as [Pe Pa].
+  destruct flat_vars_closed as [Ce Ca].
   split.
   - intros e HNE _ Hc. pose proof (in_kb_flat rules _ Hflat HNE) as He. simpl in He.
     assert (Hn: ~ In x (vars_expr e)).
     { intro Hin. rewrite (expr_contains_its_vars e x Hin) in Hc. discriminate. }
     destruct (flat_frame meth fx fx') as [Fe _]. apply (Fe e He).
-    intros y Hy Hfy. apply Hframe; auto. eapply Hsub; eauto.
+    intros y Hy Hfy. apply Hframe; auto. intro Hin. apply Hn. eapply Ce; eauto.
   - intros a HNA _ Hc. pose proof (in_kb_flat rules _ Hflat HNA) as Ha. simpl in Ha.
     assert (Hn: ~ In x (vars_atom a)).
     { intro Hin. rewrite (atom_contains_its_vars a x Hin) in Hc. discriminate. }
     destruct (flat_frame meth fx fx') as [_ Fa]. apply (Fa a Ha).
-    intros y Hy Hfy. apply Hframe; auto. eapply Hsub; eauto.
+    intros y Hy Hfy. apply Hframe; auto. intro Hin. apply Hn. eapply Ca; eauto.
 Qed.
 
 End Dependency.
